@@ -587,8 +587,17 @@ def c02(tier, rep):
     progs, stats = fam_wrappers.programs(tier)
     fr = e2.run_family("c02", progs)
     judge_family(rep, fr)
+    ap = fam_wrappers.async_wrapper_programs(tier)
+    fra = e2.run_family("c02async", ap, extra_header=fam_wrappers.ASYNC_PRE)
+    judge_family(rep, fra)
+    rep.set("async_wrapper_programs", len(ap))
+    from . import fam_costs, fam_names
+
+    sp = [p for p in fam_costs.borrow_programs() if "shared-local" in p.id or "wrapper-closure" in p.id]
+    frs = e2.run_family("c02shared", sp, extra_header=fam_names.NEST_HEADER + fam_costs.RC_PRE)
+    judge_family(rep, frs)
     rep.set("wrapper_operator_kind_pairs", len(stats["wrappers"]))
-    rep.set("rule", "each of the ten wrapper-capable operators on every kind it types on (25 operator x kind pairs) x every inner chain of length <= 2 (incl. empty, nested wrappers up to depth %d, a block capture as first inner operand) x closing modes {explicit <<<, <<< + outer operator, <<< + ~outer operator, open to branch end, open to step end + ~operator, ~wrapper open, ~wrapper closed} x {join!, try_join!}, as two-branch programs whose second branch has captures in both steps; value and FULL trace against the reference `.x(|v| v inner) rest`; non-trivial = trace non-empty and >= 2 outcomes" % (2 if tier == "quick" else 3))
+    rep.set("rule", "each of the ten wrapper-capable operators on every kind it types on (25 operator x kind pairs) x every inner chain of length <= 2 (incl. empty, nested wrappers up to depth %d, a block capture as first inner operand) x closing modes {explicit <<<, <<< + outer operator, <<< + ~outer operator, open to branch end, open to step end + ~operator, ~wrapper open, ~wrapper closed} x {join!, try_join!}, as two-branch programs whose second branch has captures in both steps; value and FULL trace against the reference `.x(|v| v inner) rest`; async: the seven wrapper operators of the futures table (|>, ??, =>, <=, !> on futures; |>, ?>, ?|> on streams) x inner chains x {closed, open / followed by a collecting step} in join_async!/try_join_async!; wrapper closures sharing a caller/async-block local with a later step (the closure must borrow, not copy); non-trivial = trace non-empty and >= 2 outcomes" % (2 if tier == "quick" else 3))
     sample_family(rep, progs, fr)
 
 
